@@ -770,9 +770,11 @@ def open_binary(fname):
     return open(fname, "rb", buffering=FILE_READ_BUFFER_SIZE)
 
 
-def open_text(fname):
+def open_text(fname, newline=None):
     """Open a file in text mode by using the proper FS encoding and
-    en/decoding error handlers.
+    en/decoding error handlers. `newline` is passed to open(): use
+    newline="" for files which are not made of lines, so that "\r"
+    and "\r\n" are not translated to "\n".
     """
     # See:
     # https://github.com/giampaolo/psutil/issues/675
@@ -782,6 +784,7 @@ def open_text(fname):
         buffering=FILE_READ_BUFFER_SIZE,
         encoding=ENCODING,
         errors=ENCODING_ERRS,
+        newline=newline,
     )
     try:
         # Dictates per-line read(2) buffer size. Defaults is 8k. See:
